@@ -55,6 +55,15 @@ def work(chunk, extra):
             else:
                 x = gens.uniform_selfies(rng, alistr(alist, rng), 25)
             cases.append(x)
+        # ring closures that compete for the last free valence of an atom: an atom opens a branch, an atom inside closes a ring back onto it,
+        # and after the branch it reads a ring symbol of higher order itself (the ring pass must clip every ring bond by BOTH atoms' free valences)
+        atoms_ = [a for a in alist if 'Ring' not in a and 'Branch' not in a]
+        rings_ = [a for a in alist if 'Ring1' in a]
+        if atoms_ and rings_:
+            for _ in range(40):
+                x0, y0, z0, w0 = (rng.choice(atoms_) for _ in range(4))
+                cases.append(x0 + y0 + '[Branch1][Ring2]' + z0 + rng.choice(rings_) + '[C]' + rng.choice(rings_) + rng.choice(['[C]', '[Ring1]']) + rng.choice(['', w0]))
+                cases.append(x0 + y0 + rng.choice(rings_) + '[C]' + z0 + rng.choice(rings_) + '[Ring1]' + rng.choice(rings_) + '[Ring2]' + w0)
         # every single symbol, and every symbol after a chain that leaves state > 0
         cases += alist + ['[C][C]' + a for a in alist if '[C]' in al]
         ms = d.batch([['dec', tb, S(x), False, False] for x in cases])
@@ -117,6 +126,15 @@ def run(rep, tier, seed, b):
         first = rng.choice([[['set', ['name', rng.choice(names)]]], [['new', H.random_dict(rng, valid=True)], ['set', ['held', 0]]]])
         second = rng.choice([[['set', ['name', rng.choice(names)]]], [['new', H.random_dict(rng, valid=True)], ['set', ['held', 1 if first[0][0] == 'new' else 0]]]])
         targeted.append(first + [['alpha'], ['dec', '[C][=Cl][#Br][=I][N]', False, False]] + second + [['dec', '[C][=Cl][#Br][=I][N]', False, False], ['get'], ['alpha']])
+    # a REJECTED update must leave table and alphabet alone: alphabet and reported table are compared after it as well
+    for _ in range(60 if tier == 'quick' else 600):
+        first = rng.choice([[['set', ['name', rng.choice(names)]]], [['new', H.random_dict(rng, valid=True)], ['set', ['held', 0]]]])
+        bad = H.random_dict(rng, valid=False)
+        if rng.random() < 0.6:       # the offending entry last, after entries that would change capacities
+            ok_part = [kv for kv in H.random_dict(rng, valid=True)]
+            bad = ok_part + [[rng.choice(H.BAD_KEYS), 2]] if rng.random() < 0.5 else ok_part + [['Fe', -1]]
+        targeted.append(first + [['alpha'], ['dec', '[C][=Cl][#Br][=I][N]', False, False], ['new', bad], ['set', ['held', 1 if first[0][0] == 'new' else 0]],
+                                 ['dec', '[N][#C][=Xe][=O]', False, False], ['get'], ['alpha']])
     hists = [H.random_history(rng, translate=False) + [['get'], ['alpha']] for _ in range(60 if tier == 'quick' else 600)] + targeted
     for ops in hists:
         im = H.impl_run(ops)
